@@ -1,10 +1,10 @@
 SPECIFICATION Spec
 CONSTANTS
   Keys = {1, 2}
-  Vals = {1}
+  Vals = {1, 2}
   MaxChain = 3
-  MaxWrites = 5
-  MaxReopens = 1
+  MaxWrites = 8
+  MaxReopens = 2
   DevF7 = FALSE
 INVARIANTS TypeOK ReopenSeesPersisted ChainMatchesFile ChainBounded AgesOK MemoryCoversFile FilterSound
 PROPERTIES PersistIsCurrent
